@@ -416,3 +416,5 @@ def run(chk, tier):
     chk.guard('C15.f', lambda: rule_case_conversion(chk, prog, tier))
     from props import c03
     chk.guard('C03.m', lambda: c03.rule_mnemonics(chk, prog, tier))       # the compare ladder and the promotion of the controlling expression reach the backend as text
+    from props import c01
+    chk.guard('C01.b', lambda: c01.rule_convert(chk, prog, tier))        # the promotion of the controlling expression is a conversion: a narrow unsigned value must be zero-extended before the ladder compares it
